@@ -136,6 +136,11 @@ def rule_marking(rep, prog, eff, strict=False):
                     ok = is_size_of(n)
                     rep("R5.1.extent", minst, ok, mwhere, f"single volatile store of a T: mark length `{tstr(n)}` must be size_of::<T>()")
                 continue
+            if kind == "write" and cnt is not None:
+                # a counted primitive write (ptr::write_bytes(p, v, count)): the mark covers exactly the count written
+                ok = n == cnt or (not strict and n == cnt)
+                rep("R5.1.extent", minst, ok, mwhere, f"mark length `{tstr(n)}`; bytes written `{tstr(cnt)}`")
+                continue
             rep("R5.1.extent", minst, False, mwhere, f"unrecognised write kind {kind}: cannot relate mark length `{tstr(n)}` to the write")
     return sites, raw, host, used_marks
 
